@@ -47,13 +47,19 @@ type c14Case struct {
 	Split   bool            `json:"split"`  // sender and receiver on two goroutines
 	Handler hprog           `json:"handler"`
 	Bound   int             `json:"bound"`
-	Prefix  []int           `json:"prefix,omitempty"` // schedule (replay)
+	// Limit: the client carries a read limit smaller than the handler's
+	// messages, so Receive fails with a non-EOF error while the stream is open.
+	Limit  bool  `json:"limit,omitempty"`
+	Prefix []int `json:"prefix,omitempty"` // schedule (replay)
 }
 
 func (k c14Case) key() string {
 	sp := ""
 	if k.Split {
 		sp = "/split"
+	}
+	if k.Limit {
+		sp += "/limit"
 	}
 	return fmt.Sprintf("%s/%s/%s%s/%s", k.Proto, k.ReqMode, k.Client, sp, k.Handler)
 }
@@ -65,6 +71,9 @@ func (k c14Case) tags() []string {
 	}
 	if k.Split {
 		t = append(t, "split")
+	}
+	if k.Limit {
+		t = append(t, "oversize-response")
 	}
 	return t
 }
@@ -281,6 +290,7 @@ type opObs struct {
 }
 
 type c14Obs struct {
+	Completed    int // operations that had returned when the system went quiescent
 	Ops          []opObs
 	HandlerRecv  []string // classes of the handler's Receive results
 	HandlerDone  bool
@@ -329,7 +339,11 @@ func c14Body(k c14Case, s *bsched.Sched) any {
 			}
 		}
 		for j := 0; j < k.Handler.Send; j++ {
-			_ = st.Send(&BV{Value: []byte{'h', byte(j)}})
+			payload := []byte{'h', byte(j)}
+			if k.Limit {
+				payload = append(payload, "0123456789"...)
+			}
+			_ = st.Send(&BV{Value: payload})
 		}
 		if k.Handler.Drain {
 			for recv() {
@@ -346,7 +360,11 @@ func c14Body(k c14Case, s *bsched.Sched) any {
 			closedSeq = tick()
 		}
 	}
-	cl := NewClient(tr, Cfg{Proto: k.Proto, Comp: CompNone})
+	var copts []connect.ClientOption
+	if k.Limit {
+		copts = append(copts, connect.WithReadMaxBytes(6))
+	}
+	cl := NewClient(tr, Cfg{Proto: k.Proto, Comp: CompNone}, copts...)
 	ctx, cancel := context.WithCancel(context.Background())
 	stream := cl.CallBidiStream(ctx)
 	sendIdx := 0
@@ -422,6 +440,7 @@ func c14Body(k c14Case, s *bsched.Sched) any {
 		})
 	}
 	s.Run()
+	obs.Completed = len(obs.Ops)
 	if s.Deadlock || s.Horizon {
 		obs.Stacks = bsched.AllStacks()
 	}
@@ -463,7 +482,7 @@ func c14Judge(c *ev.Collector, k c14Case, x *bsched.Exec, pred c14Prediction) st
 		return "horizon"
 	}
 	if x.Deadlock {
-		viol("terminates", "deadlock", "blocked threads %v; ops so far %s\n%s", x.Blocked, opsString(obs.Ops), trimStacks(obs.Stacks))
+		viol("terminates", "deadlock", "blocked threads %v; operations completed before the deadlock: %s\n%s", x.Blocked, opsString(obs.Ops[:obs.Completed]), trimStacks(obs.Stacks))
 		return "deadlock"
 	}
 	hasX := strings.Contains(k.Client, "X")
@@ -481,7 +500,7 @@ func c14Judge(c *ev.Collector, k c14Case, x *bsched.Exec, pred c14Prediction) st
 		viol("body-closed", "not-closed", "client called CloseResponse but the HTTP response body was never closed")
 	}
 	// handler sees end-of-request once the client closed its side
-	if !hasX && k.Handler.Drain && len(obs.HandlerRecv) > 0 {
+	if !hasX && !k.Limit && k.Handler.Drain && len(obs.HandlerRecv) > 0 {
 		if last := obs.HandlerRecv[len(obs.HandlerRecv)-1]; last != "eof" {
 			bad = true
 			viol("handler-eof", "no-eof", "draining handler's last Receive was %q, not an error wrapping io.EOF; receives: %v", last, obs.HandlerRecv)
@@ -523,7 +542,7 @@ func c14Judge(c *ev.Collector, k c14Case, x *bsched.Exec, pred c14Prediction) st
 		if !isMsg {
 			failed = true
 		}
-		if !hasX && !failedBefore(obs.Ops, ri) && ri < len(pred.Recv) {
+		if !hasX && !k.Limit && !failedBefore(obs.Ops, ri) && ri < len(pred.Recv) {
 			want := pred.Recv[ri]
 			got := o.Class
 			switch {
@@ -606,6 +625,9 @@ func c14Cases(thorough bool) []c14Case {
 					out = append(out, c14Case{Proto: p, ReqMode: m, Client: w, Handler: h, Bound: 1})
 					if strings.Contains(w, "R") && !strings.Contains(w, "X") && len(w) <= 4 {
 						out = append(out, c14Case{Proto: p, ReqMode: m, Client: w, Split: true, Handler: h, Bound: 1})
+					}
+					if strings.Contains(w, "R") && h.Send > 0 && len(w) <= 4 && m == memhttp.ReqEager {
+						out = append(out, c14Case{Proto: p, ReqMode: m, Client: w, Handler: h, Bound: 1, Limit: true})
 					}
 				}
 			}
